@@ -19,7 +19,8 @@ ContentPreds(e, closing) ==
    \cup When(\E i \in 1..Len(e.recs) : e.recs[i] \in rej, "C07_reject_or_write")
    \cup When(\E i \in 1..Len(e.recs) : e.recs[i] \notin acc /\ e.recs[i] \notin rej, "C07_unknown_record")
    \cup When(\E i \in 1..(Len(e.recs) - 1) : e.recs[i] >= e.recs[i + 1], "C07_order")
-   \cup When(acc \ ToSet(e.recs) # {}, IF closing THEN "C07_close_durable" ELSE "C07_flush_durable")
+   \* (a flush that reports an error, e.g. a time-out, does not claim that the data are in the file)
+   \cup When(acc \ ToSet(e.recs) # {} /\ ~("err" \in DOMAIN e /\ e.err # "" /\ ~closing), IF closing THEN "C07_close_durable" ELSE "C07_flush_durable")
    \cup When("returned" \in DOMAIN e /\ ~e.returned, "C07_call_returns")
 
 Step ==
